@@ -326,6 +326,15 @@ def check_case(case):
             k = next(k for k in list(final) + list(got) if got.get(k) != final.get(k))
             bad("model", f"{k!r}: got {got.get(k)}, expected {final.get(k)} (min_gap {case['min_gap']}, excludes "
                          f"{[[r for r in rows if r[0] == k] for rows in case['excludes']]}, raw runs {raw.get(k)})")
+        # ---- command-line tier (a quarter of the cases): `cnvkit.py access` on the same files = do_access with its defaults
+        from vk import gen
+
+        if gen.pick(case, "cli", 4) == 0 and not out and case["min_gap"] is not None:
+            from vk import cli
+
+            diff = cli.access_diff(fa, ex, d, case["min_gap"])
+            if diff:
+                bad("cli:access", diff)
     finally:
         shutil.rmtree(d, ignore_errors=True)
     return out
